@@ -351,7 +351,7 @@ example : DOpOK (.updateDefaults [(yab, .int 1), (yab', .int 2)]) ∧ DOpOK (.se
 
 /-- thirteen layers of defaults for one key, a user value in between: the accumulated map holds the last layer -/
 example :
-    let layers := (List.range 13).map (fun i => DOp.updateDefaults [(if i % 2 = 0 then yab else yab', .int i)])
+    let layers := (List.range 13).map (fun (i : Nat) => DOp.updateDefaults [(if i % 2 = 0 then yab else yab', .int (i : Int))])
     let ops := layers.take 6 ++ [DOp.set [(yab', .leaf (.str "user"))]] ++ layers.drop 6
     (defaultItems ops).length = 13 ∧
     (defaultItems ops).foldl (fun D ka => SMap.put D ka.1 (.leaf ka.2)) (fun _ => .none) yab' = some (.leaf (.int 12)) ∧
